@@ -401,8 +401,33 @@ let tsafe_case (w : string list) : string =
   | DOk i -> if ts_safe i addr then "SAFE" else "UNSAFE " ^ mnemonic i
   | _ -> "NODECODE"
 
+(* asm_layout <line>...: line = <labelid|->:<S<n>|O<lit>|Y<labelid>|B<size>|-> *)
+let asm_case (w : string list) : string =
+  let parse_line (t : string) : line =
+    match split_on ':' t with
+    | [lb; k] ->
+        let lab = if lb = "-" then None else Some (n_of_int (ios lb)) in
+        let rest () = n_of_int (ios (String.sub k 1 (String.length k - 1))) in
+        let st = if k = "-" then None else
+          Some (match k.[0] with
+                | 'S' -> KSection (rest ()) | 'O' -> KOrg (OLit (rest ())) | 'Y' -> KOrg (OSym (rest ()))
+                | 'B' -> KBytes (rest ()) | _ -> failwith ("bad asm kind " ^ k)) in
+        { l_label = lab; l_stmt = st }
+    | _ -> failwith ("bad asm line " ^ t) in
+  match asm_layout (List.map parse_line w) with
+  | Inr EDuplicateLabel -> "ERR duplicate_label"
+  | Inr EUnknownSection -> "ERR unknown_section"
+  | Inr EUndefinedSymbol -> "ERR undefined_symbol"
+  | Inl y ->
+      let nl l = String.concat "," (List.map (fun x -> string_of_int (int_of_n x)) l) in
+      Printf.sprintf "OK syms=%s place=%s a1=%s a2=%s"
+        (String.concat "," (List.map (fun (k, v) -> Printf.sprintf "%d:%d" (int_of_n k) (int_of_n v)) y.y_syms))
+        (String.concat "," (List.map (fun ((a, sz), e) -> Printf.sprintf "%d:%d:%s" (int_of_n a) (int_of_n sz) (b2s e)) y.y_place))
+        (nl y.y_addr1) (nl y.y_addr2)
+
 let handle (w : string list) : string =
   match w with
+  | "asm_layout" :: rest -> asm_case rest
   | "tsafe" :: rest -> tsafe_case rest
   | "spec" :: rest -> spec_case rest
   | "info" :: rest -> info_case rest
